@@ -221,6 +221,8 @@ def check_program(prog, propagate_evidence):
 
 
 def with_all_queries(prog):
+    if prog.get("text"):
+        return prog
     heads = _heads_of(prog["clauses"])
     return dict(prog, queries=[h for h in heads if not any(worlds.is_var(t) for t in h[1])])
 
@@ -237,8 +239,8 @@ class C22(Prop):
             "P(. | evidence), which implies convergence of frequencies; non-trivial = tree with >= 2 accepted leaves")
     assumptions = ["continuous distributions are outside the statement",
                    "printed probability is judged when every probabilistic clause is a fact/AD fact (all choices made)"]
-    families = {"quick": [("F2.2", 16), ("F1.2q", 64), ("F2.3", 192), ("F1.1", 4)],
-                "thorough": [("F2.3", 192), ("F1.2", 128), ("F2.4", 256), ("F1.3s", 48), ("F2.2", 16), ("F1.1", 4)]}
+    families = {"quick": [("FLEX", 7), ("F2.2", 16), ("F1.2q", 64), ("F2.3", 192), ("F1.1", 4)],
+                "thorough": [("FLEX", 7), ("F2.3", 192), ("F1.2", 128), ("F2.4", 256), ("F1.3s", 48), ("F2.2", 16), ("F1.1", 4)]}
     budget = {"quick": 300, "thorough": 2400}
 
     def shards(self, tier):
